@@ -31,18 +31,21 @@ BATCH = 150
 TASKS_PER_CHILD = 20
 
 VALS = ("a", "b")
-HV = {"a": HashedValue("A", id_=101), "b": HashedValue("B", id_=102), "x": HashedValue("X", id_=777)}
+VALS3 = ("a", "b", "c")
+HV = {"a": HashedValue("A", id_=101), "b": HashedValue("B", id_=102), "c": HashedValue("C", id_=103),
+      "x": HashedValue("X", id_=777)}
 EXTRA_KEY = 99      # an id that is not a key of the cache (callers pass whole source dicts)
 KEYSETS = {
     "k3": (1, 2, 3), "k3u": (3, 1, 2),        # the same three keys, given unsorted
     "k2": (1, 2), "k2u": (2, 1), "k1": (1,),
+    "k2v3": (1, 2),                           # two keys over a three-value alphabet
 }
 
 
-def bindings(keys, allow_empty):
+def bindings(keys, allow_empty, vals=VALS):
     ks = sorted(keys)
     out = []
-    for combo in itertools.product((None,) + VALS, repeat=len(ks)):
+    for combo in itertools.product((None,) + tuple(vals), repeat=len(ks)):
         b = tuple((k, v) for k, v in zip(ks, combo) if v is not None)
         if b or allow_empty:
             out.append(b)
@@ -50,15 +53,16 @@ def bindings(keys, allow_empty):
 
 
 def bounds(tier):
-    return {"k3_depth": 2 if tier == "quick" else 3, "k2_depth": 3 if tier == "quick" else 4, "k1_depth": 4,
-            "values": 2, "lookups": "every binding incl. empty and with an extra non-key id, after every step"}
+    return {"k3_depth": 2 if tier == "quick" else 4, "k2_depth": 3 if tier == "quick" else 5, "k1_depth": 4,
+            "k2_three_values_depth": 2 if tier == "quick" else 3, "values": 2, "lookups": "every binding incl. empty and with an extra non-key id, after every step"}
 
 
 def cases(tier, inst):
     thorough = tier == "thorough"
-    plan = [("k3", 3 if thorough else 2), ("k3u", 2), ("k2", 4 if thorough else 3), ("k2u", 3 if thorough else 2), ("k1", 4)]
+    plan = [("k3", 4 if thorough else 2), ("k3u", 3 if thorough else 2), ("k2", 5 if thorough else 3),
+            ("k2u", 4 if thorough else 2), ("k1", 4), ("k2v3", 3 if thorough else 2)]
     for kv, depth in plan:
-        alpha = bindings(KEYSETS[kv], False)
+        alpha = bindings(KEYSETS[kv], False, VALS3 if kv == "k2v3" else VALS)
         for seq in sequences(alpha, depth, 1):
             yield (kv, seq)
         # clear() in the middle / at the end
@@ -102,7 +106,8 @@ class Ref:
 
 
 def buggy_retrieve(entries, keys, look):
-    """Alternative reference semantics = the recorded defect: at every key level a concrete match hides the wildcard
+    """The wildcard-preference defect that was repaired by /repo commit fd85bde, kept as a diagnostic label for
+    regressions (a deviation that equals this prediction is reported as `retrieve-sibling-skipped`): at every key level a concrete match hides the wildcard
     sibling (lookup binds the key) and a wildcard entry hides all concrete siblings (lookup leaves the key open)."""
     ks = sorted(keys)
 
@@ -158,7 +163,7 @@ def run_case(case, inst):
     allow_empty = kv.endswith(":empty")
     cache = IndexedCache(list(keys))
     ref = Ref()
-    lookups = [dict(b) for b in bindings(keys, True)]
+    lookups = [dict(b) for b in bindings(keys, True, VALS3 if kv == "k2v3" else VALS)]
     lookups += [{**b, EXTRA_KEY: "x"} for b in lookups[:4]]
     trans = 0
     unexplained = None
@@ -197,11 +202,10 @@ def run_case(case, inst):
             except Exception as e:
                 got_c = ("EXC", type(e).__name__, str(e)[:60])
             exp_c = canon(ref.retrieve(look))
-            if got_c != exp_c:
-                if in_scope and got_c == canon(buggy_retrieve(ref.entries, keys, look)):
-                    explained += 1
-                elif unexplained is None:
-                    unexplained = ("retrieve", list(seq[:step_i + 1]), look, got_c, exp_c)
+            if got_c != exp_c and unexplained is None:
+                # diagnostic label only: does the deviation look like the (repaired) wildcard-preference defect?
+                old = in_scope and got_c == canon(buggy_retrieve(ref.entries, keys, look))
+                unexplained = ("retrieve-sibling-skipped" if old else "retrieve", list(seq[:step_i + 1]), look, got_c, exp_c)
     res = {"ok": unexplained is None and explained == 0, "nontrivial": nontrivial, "transitions": trans,
            "tags": [f"keys={kv}", f"len={len(seq)}"] + (["has_clear"] if "CLEAR" in seq else [])
                    + (["wildcard_and_concrete_siblings"] if explained else []),
@@ -210,37 +214,7 @@ def run_case(case, inst):
         kind, hist, look, got, exp = unexplained
         res.update(sig=f"{kind}:{'exc' if isinstance(got, tuple) and got and got[0] == 'EXC' else 'mismatch'}",
                    obs=(f"after {hist}", f"lookup {look}", got), exp=exp)
-    elif explained:
-        res.update(sig="known:wildcard-vs-concrete-sibling",
-                   obs=f"{explained} lookups return what the recorded defect predicts (wildcard / concrete sibling skipped)",
-                   exp="all matching entries", kf_hint={"explained": explained, "unexplained": 0})
     return res
-
-
-# ---------------------------------------------------------------- known-finding hooks (see eqlmc/kf.py)
-def _scope(case, inst):
-    kv, seq = case
-    keys = KEYSETS[kv.split(":")[0]]
-    r = Ref()
-    hit = False
-    for i, op in enumerate(seq):
-        if op == "CLEAR":
-            r.clear()
-        else:
-            r.insert(dict(op), i)
-        hit = hit or coexist(r.entries, keys)
-    return hit
-
-
-def _model(case, inst, sig, obs, hint):
-    # run_case has already compared every deviating lookup with buggy_retrieve(); a case is attributed to the finding
-    # only if ALL its deviations are exactly the predicted ones
-    return sig == "known:wildcard-vs-concrete-sibling" and bool(hint) and hint.get("unexplained") == 0 \
-        and hint.get("explained", 0) > 0
-
-
-KF_SCOPES = {"wildcard_and_concrete_siblings": _scope}
-KF_MODELS = {"wildcard_branch_preferred": _model}
 
 
 def describe(case, inst):
